@@ -77,6 +77,14 @@ class Check(DiffCheck):
         if not exe: raise RuntimeError(log[-3000:])
         return exe
 
+    def impl_env(self):
+        # symbolize=0: a sanitizer report costs milliseconds instead of seconds, so a defect that makes tens of
+        # thousands of cases trap still finishes (the replay file names the case; re-run it by hand for a symbolized trace)
+        e = dict(os.environ)
+        e['ASAN_OPTIONS'] = 'detect_leaks=0:abort_on_error=0:exitcode=99:symbolize=0:fast_unwind_on_fatal=1'
+        e['UBSAN_OPTIONS'] = 'print_stacktrace=0:halt_on_error=1:symbolize=0'
+        return e
+
     # ------------------------------------------------------------------ generation
     def gen_cases(self, tier, rng):
         cs = []
